@@ -204,6 +204,17 @@ theorem spec_clause_sound (lk : String → List Tuple) (r : Rule) (hagg : r.hasA
     ∃ env, BodySat lk r env ∧ HeadInst r env t :=
   evalRuleLk_sound lk r hagg hc ts h t ht
 
+/-- … and complete: for a range-restricted rule every head instance of a valuation satisfying the
+    body declaratively (`BodySat`) is derived by `evalRuleLk`. Together with `spec_clause_sound`:
+    for aggregate-free rules without comparison literals, `t ∈ evalRuleLk lk r` ⇔ `t` is the head
+    instance of a satisfying valuation. -/
+theorem spec_clause_complete (lk : String → List Tuple) (r : Rule) (hagg : r.hasAgg = false) (hc : r.cmps = [])
+    (hsafeH : ∀ x, x ∈ r.hargs.flatMap HTerm.vars → x ∈ r.posVars)
+    (hsafeN : ∀ a, a ∈ r.negAtoms → ∀ x, Term.var x ∈ a.args → x ∈ r.posVars)
+    (ts : List Tuple) (hev : evalRuleLk lk r = some ts)
+    (env : Env) (hsat : BodySat lk r env) (t : Tuple) (hhead : HeadInst r env t) : t ∈ ts :=
+  evalRuleLk_complete lk r hagg hc hsafeH hsafeN ts hev env hsat t hhead
+
 /-- A three-head chain with a join, a negation over a derived head and a constant, written in an
     order in which the code's topological sort has to move heads (`b` is defined before `a`). -/
 def chain3 : Program := [
